@@ -68,9 +68,9 @@ def oracle(script: dict, run: Any) -> List[Violation]:
     removed = {op["id"] for op in script.get("ops", []) if op["op"] == "remove"}
     cancelled = {c for src in script["sources"] for c in src.get("cancel", [])}
     evals_by_marker: Dict[Any, List[Any]] = {}
-    for now_us, task, res in run.delay_log:
+    for now_us, task, res, _sq in run.delay_log:
         mk = task.args[0] if task.args else None
-        evals_by_marker.setdefault(mk, []).append((now_us, res))
+        evals_by_marker.setdefault(mk, []).append((now_us, res, _sq))
     # ---------------------------------------------------------------- (b) cron schedules
     for pi, p in enumerate(ps):
         if p["wall"] is None or p["wall"] >= end - 2_500_000:
@@ -150,17 +150,22 @@ def oracle(script: dict, run: Any) -> List[Violation]:
             if sp.get("label"):
                 sub = "@label-source"
             else:
-                # stale listing: the first send finished while the poll that caused the second one was in progress
+                # stale listing: the second send comes from an evaluation that (a) used a listing fetched before the first send's
+                # post_send (i.e. before the source removed the one-shot) and (b) took place after that post_send. A second send
+                # that comes from an evaluation made *before* the first send completed (a delayed send scheduled by an earlier
+                # poll) is the de-duplication defect fixed in fc0e4ed and stays a plain violation.
                 posts = [e for e in h.kind("post_send") if e[4]["id"] == sid]
-                if posts:
+                pres = [e for e in h.kind("pre_send") if e[4]["id"] == sid]
+                if posts and len(pres) >= 2:
                     p1 = posts[0]
-                    for p in ps:
-                        if p["wall"] is None or sid not in p["listed"].get(src, []):
+                    # an evaluation E made after the first send's post_send (event order) that still found the schedule due, using a
+                    # listing of its source obtained before that post_send, followed by a further send: the stale-listing race
+                    for (e_now, e_res, e_seq) in evals_by_marker.get(sid, []):
+                        if e_res is None or isinstance(e_res, tuple) or e_seq <= p1[0]:
                             continue
-                        ok_ev = next((e for e in h.kind("list_ok") if e[4]["source"] == src and e[4]["n"] == p["n"]), None)
-                        if ok_ev is None:
-                            continue
-                        if ok_ev[0] < p1[0] and p1[2] >= p["wall"] and 0 <= good[1][2] - (p["t_eval"] or p["wall"]) <= TOL_US:
+                        oks = [x for x in h.kind("list_ok") if x[4]["source"] == src and x[0] < e_seq and sid in x[4]["ids"]]
+                        later_pre = [x for x in pres[1:] if x[0] >= e_seq and x[2] - (e_now + e_res * 1_000_000) <= tol]
+                        if oks and oks[-1][0] < p1[0] and later_pre:
                             sub = "@stale-listing"
                             break
             out.append(Violation("C15/one-shot-sent-twice" + sub, f"one-shot {sid} with T={from_us(T).isoformat()} was sent {len(good)} times, at "
